@@ -149,6 +149,35 @@ def parseCDecl : Sexp → Option CDecl
       some (.indicatorBounds (← i.asNat?) (← asOpt? asInt? lo) (← asOpt? asInt? hi))
   | _ => none
 
+def parseIDecl : Sexp → Option IDecl
+  | .list [.atom "expr", n, t, bnd] => do some (.expr (← n.asStr?) (← parseTerm t) (← asOpt? parsePair bnd))
+  | .list [.atom "utilization", r] => do some (.utilization (← r.asStr?))
+  | .list [.atom "nbTasksAssigned", r] => do some (.nbTasksAssigned (← r.asStr?))
+  | .list [.atom "tardiness", ts] => do some (.tardiness (← asOpt? (asList? asStr?) ts))
+  | .list [.atom "earliness", ts] => do some (.earliness (← asOpt? (asList? asStr?) ts))
+  | .list [.atom "nbTardy", ts] => do some (.nbTardy (← asOpt? (asList? asStr?) ts))
+  | .list [.atom "maxLateness", ts] => do some (.maxLateness (← asOpt? (asList? asStr?) ts))
+  | .list [.atom "resourceCost", rs] => do some (.resourceCost (← asList? asStr? rs))
+  | .list [.atom "idle", r] => do some (.idle (← r.asStr?))
+  | .list [.atom "maxBuffer", b] => do some (.maxBuffer (← b.asStr?))
+  | .list [.atom "minBuffer", b] => do some (.minBuffer (← b.asStr?))
+  | _ => none
+
+def parseODecl : Sexp → Option ODecl
+  | .list [.atom "maximizeIndicator", i, w] => do some (.maximizeIndicator (← i.asNat?) (← w.asInt?))
+  | .list [.atom "minimizeIndicator", i, w] => do some (.minimizeIndicator (← i.asNat?) (← w.asInt?))
+  | .list [.atom "makespan"] => some .makespan
+  | .list [.atom "flowtime", ts] => do some (.flowtime (← asOpt? (asList? asStr?) ts))
+  | .list [.atom "priorities"] => some .priorities
+  | .list [.atom "startLatest", ts] => do some (.startLatest (← asOpt? (asList? asStr?) ts))
+  | .list [.atom "startEarliest"] => some .startEarliest
+  | .list [.atom "greatestStart", ts] => do some (.greatestStart (← asOpt? (asList? asStr?) ts))
+  | .list [.atom "resourceUtilization", r] => do some (.resourceUtilization (← r.asStr?))
+  | .list [.atom "resourceCost", rs] => do some (.resourceCost (← asList? asStr? rs))
+  | .list [.atom "maximizeMaxBuffer", b] => do some (.maximizeMaxBuffer (← b.asStr?))
+  | .list [.atom "minimizeMaxBuffer", b] => do some (.minimizeMaxBuffer (← b.asStr?))
+  | _ => none
+
 def parseDecl : Sexp → Option Decl
   | .list [.atom "problem", n, h] => do some (Decl.problem (← n.asStr?) (← asOpt? asInt? h))
   | .list [.atom "task", n, k, opt, work, rel, due, dl, prio] => do
@@ -166,6 +195,8 @@ def parseDecl : Sexp → Option Decl
   | .list [.atom "buffer", n, conc, i, f, lb, ub] => do
       some (Decl.buffer (← n.asStr?) (← conc.asBool?) (← asOpt? asInt? i) (← asOpt? asInt? f)
         (← asOpt? asInt? lb) (← asOpt? asInt? ub))
+  | .list [.atom "indicator", d] => do some (Decl.indicator (← parseIDecl d))
+  | .list [.atom "objective", d] => do some (Decl.objective (← parseODecl d))
   | _ => none
 
 end PS
